@@ -50,7 +50,7 @@ def memberOk (m : SMap) : Outcome → Bool
   | .node n => match m.find n.repr with
     | some (v, c) => v == n && c > 0
     | none => false
-  | .none => m.all (fun p => p.2 == 0)
+  | .none => m.all (fun p => m.cnt p.1.repr == 0)
   | .panic => false
 
 def allPoints (H : Hasher) (m : SMap) : List Nat := m.flatMap (fun p => points H p.1.repr p.2)
@@ -61,7 +61,7 @@ def adjDistinct : List Nat → Bool
   | a :: b :: rest => a != b && adjDistinct (b :: rest)
 
 /-- no two virtual nodes in play share a hash value -/
-def noCollision (H : Hasher) (m : SMap) : Bool := adjDistinct ((allPoints H m).mergeSort (· ≤ ·))
+def noCollision (H : Hasher) (m : SMap) : Bool := adjDistinct (sortKeys (allPoints H m))
 
 /-- minimal disruption for one probe key: if the answer changed across an operation on repr `r`,
 the old answer was the node of repr `r` (remove / re-add) or the new answer is (add / re-add). -/
